@@ -7,9 +7,9 @@
 (*                   of depth D is printed as one JSON line (input for the  *)
 (*                   conformance harness)                                   *)
 (*   -simulate       random walks through the same Next                     *)
-EXTENDS StamStore, Json
+EXTENDS StamStore, Json, SequencesExt
 
-CONSTANTS MaxRes, MaxSets, MaxAnns, MaxData, MaxKeys, Depth, Scenario, Size, Prelude, DevShift
+CONSTANTS MaxRes, MaxSets, MaxAnns, MaxData, MaxKeys, Depth, Scenario, Size, Prelude, Reads, DevShift
 
 VARIABLES st, hist
 
@@ -87,10 +87,41 @@ AnnotateMenu ==
            \cup {[id |-> i, target |-> t, data |-> d] : i \in AnnIds, t \in {x \in SimpleTargets : x.kind \in {"Text", "Res"}}, d \in BadDataMenu \cup {<<>>}}
       [] OTHER -> {[id |-> i, target |-> t, data |-> d] : i \in AnnIds, t \in SimpleTargets \cup ComplexTargets, d \in DataMenu}
 
+\* a fixed prelude so that the depth budget of generated behaviours is spent on interesting steps
+PreludeOps ==
+    LET addres == [ev |-> "AddResource", a |-> [id |-> "r1", text |-> <<11, 12, 21>>]]
+        addset == [ev |-> "AddDataset", a |-> [id |-> "s1"]]
+        ann(i, t, d) == [ev |-> "Annotate", a |-> [id |-> i, target |-> t, data |-> d]]
+        txt(b, e) == TB("Text", ById("r1"), NoRef, Off("B", b, "B", e))
+        d1 == <<DB(ById("s1"), ById("k1"), NoRef, StrVal("v1"))>>
+        d2 == <<DB(ById("s1"), ById("k2"), NoRef, StrVal("v1"))>>
+    IN CASE Prelude = 0 -> <<>>
+         [] Prelude = 1 -> <<addres, addset>>
+         [] Prelude = 2 -> <<addres, addset, ann("a1", txt(0, 1), d1)>>
+         [] Prelude = 3 -> <<addres, addset, ann("a1", txt(0, 1), d1), ann("", TB("Ann", ById("a1"), NoRef, NoOffset), d2)>>
+         [] Prelude = 4 -> <<addres, addset, ann("a1", txt(0, 1), d1), ann("a2", txt(1, 2), d1 \o d2),
+                       ann("", Complex("Multi", <<TB("Ann", ById("a1"), NoRef, NoOffset), TB("Ann", ById("a2"), NoRef, NoOffset)>>), <<>>)>>
+         \* 5: items shared by several annotations, two resources with text annotations
+         [] Prelude = 5 -> <<addres, [ev |-> "AddResource", a |-> [id |-> "r2", text |-> <<13, 11>>]], addset,
+                             ann("a1", txt(0, 3), d1), ann("a2", txt(0, 1), d1), ann("", txt(0, 3), d1 \o d2),
+                             ann("", TB("Res", ById("r1"), NoRef, NoOffset), d1),
+                             ann("", TB("Text", ById("r2"), NoRef, Off("B", 0, "B", 1)), d2)>>
+         \* 6: metadata annotations on keys/data/sets and annotations on annotations (chain + relative offset)
+         [] OTHER -> <<addres, addset, ann("a1", txt(0, 2), d1),
+                       ann("", TB("Key", ById("s1"), ById("k1"), NoOffset), <<>>),
+                       ann("", TB("Data", ById("s1"), ByH(1), NoOffset), d2),
+                       ann("", TB("Set", ById("s1"), NoRef, NoOffset), <<>>),
+                       ann("a5", TB("Ann", ById("a1"), NoRef, NoOffset), <<>>),
+                       ann("", TB("Ann", ById("a1"), NoRef, Off("B", 0, "B", 1)), <<>>),
+                       ann("", TB("Ann", ById("a5"), NoRef, NoOffset), d1)>>
+
+ApplyAll(s0, ops) == FoldL(LAMBDA s, op : Apply(s, op.ev, op.a).st, s0, ops)
+
 KeysOf(s) == {k \in 1..Len(st.sets[s].keys) : st.sets[s].keys[k].alive}
 DatasOf(s) == {d \in 1..Len(st.sets[s].data) : st.sets[s].data[d].alive}
 
 Step(ev, a) ==
+    /\ Len(hist) < Depth + Len(PreludeOps)      \* depth bound as a guard (a CONSTRAINT would still generate the successors)
     /\ InDomain(st, ev, a)
     /\ st' = Apply(st, ev, a).st
     /\ hist' = Append(hist, [ev |-> ev, a |-> a])
@@ -113,23 +144,6 @@ Next ==
           Step("RemoveKey", [set |-> ByH(s), key |-> ByH(k), strict |-> strict])
     \/ Scenario = "all" /\ Step("StripAnnotationIds", [x |-> 0])
     \/ Scenario = "all" /\ Step("StripDataIds", [x |-> 0])
-
-\* a fixed prelude so that the depth budget of generated behaviours is spent on interesting steps
-PreludeOps ==
-    LET addres == [ev |-> "AddResource", a |-> [id |-> "r1", text |-> <<11, 12, 21>>]]
-        addset == [ev |-> "AddDataset", a |-> [id |-> "s1"]]
-        ann(i, t, d) == [ev |-> "Annotate", a |-> [id |-> i, target |-> t, data |-> d]]
-        txt(b, e) == TB("Text", ById("r1"), NoRef, Off("B", b, "B", e))
-        d1 == <<DB(ById("s1"), ById("k1"), NoRef, StrVal("v1"))>>
-        d2 == <<DB(ById("s1"), ById("k2"), NoRef, StrVal("v1"))>>
-    IN CASE Prelude = 0 -> <<>>
-         [] Prelude = 1 -> <<addres, addset>>
-         [] Prelude = 2 -> <<addres, addset, ann("a1", txt(0, 1), d1)>>
-         [] Prelude = 3 -> <<addres, addset, ann("a1", txt(0, 1), d1), ann("", TB("Ann", ById("a1"), NoRef, NoOffset), d2)>>
-         [] OTHER -> <<addres, addset, ann("a1", txt(0, 1), d1), ann("a2", txt(1, 2), d1 \o d2),
-                       ann("", Complex("Multi", <<TB("Ann", ById("a1"), NoRef, NoOffset), TB("Ann", ById("a2"), NoRef, NoOffset)>>), <<>>)>>
-
-ApplyAll(s0, ops) == FoldL(LAMBDA s, op : Apply(s, op.ev, op.a).st, s0, ops)
 
 Init == st = ApplyAll(InitState, PreludeOps) /\ hist = PreludeOps
 Spec == Init /\ [][Next]_vars
@@ -167,5 +181,46 @@ DevInv == DevShift => TRUE
 
 ----------------------------------------------------------------------------
 (* Behaviour emission for the conformance harness                          *)
-Emit == Len(hist) = Depth + Len(PreludeOps) => PrintT(<<"REPLAY", ToJson(hist)>>)
+\* Read-only questions asked of the final state of every emitted behaviour (they do not change the state, so they
+\* are appended to the behaviour instead of being explored as steps).  Reads is a set of menu names.
+RO(ev, a) == [ev |-> ev, a |-> a]
+Cont(on, res, b, e, ann) == [on |-> on, res |-> res, b |-> b, e |-> e, ann |-> ann]
+
+LookupOps ==
+    LET ids == {"r1", "r2", "s1", "a1", "a2", "a5", "k1", "k2", "d1", "nope"}
+        top == {"res", "set", "ann"}
+        n(k) == CASE k = "res" -> Len(st.res) [] k = "set" -> Len(st.sets) [] OTHER -> Len(st.anns)
+    IN {RO("Lookup", [kind |-> k, ref |-> ById(i), set |-> NoRef]) : k \in top, i \in ids}
+       \cup UNION {{RO("Lookup", [kind |-> k, ref |-> ByH(h), set |-> NoRef]) : h \in 1..(n(k) + 1)} : k \in top}
+       \cup UNION {{RO("Lookup", [kind |-> k, ref |-> ByTemp(tl, tn), set |-> NoRef]) : tl \in {"A", "R", "S", "K", "X"}, tn \in 0..n(k)} : k \in top}
+       \cup UNION {{RO("Lookup", [kind |-> k, ref |-> r, set |-> ByH(s)]) :
+                       k \in {"key", "data"},
+                       r \in {ById(i) : i \in {"k1", "k2", "d1", "nope"}} \cup {ByH(h) : h \in 1..3} \cup {ByTemp(tl, tn) : tl \in {"K", "D", "A"}, tn \in 0..2}} : s \in LiveSets(st)}
+
+Cursors(len) == {<<"B", v>> : v \in 0..(len + 1)} \cup {<<"E", -v>> : v \in 0..(len + 1)} \cup {<<"E", 1>>}
+OffsOver(len) == {Off(b[1], b[2], e[1], e[2]) : b \in Cursors(len), e \in Cursors(len)}
+Containers ==
+    {Cont("res", ByH(r), 0, 0, NoRef) : r \in LiveRes(st)}
+    \cup UNION {{Cont("range", ByH(r), be[1], be[2], NoRef) : be \in {<<1, Len(st.res[r].text)>>, <<0, 2>>, <<1, 1>>} \cap {x \in Nat \X Nat : x[2] <= Len(st.res[r].text)}} : r \in LiveRes(st)}
+    \cup {Cont("ann", NoRef, 0, 0, ByH(x)) : x \in {y \in LiveAnns(st) : HasSingleText(st.anns[y])}}
+ContLen(c) == CASE c.on = "res" -> Len(st.res[c.res.h].text) [] c.on = "range" -> c.e - c.b
+                [] OTHER -> LET lf == st.anns[c.ann.h].leaves[1] IN LeafRange(st, lf)[2] - LeafRange(st, lf)[1]
+
+OffsetOps ==
+    UNION {{RO("TextSel", [c |-> c, off |-> o]) : o \in OffsOver(ContLen(c))} : c \in Containers}
+AnnOps ==
+    {RO("AnnTextOf", [ann |-> ByH(x)]) : x \in LiveAnns(st)}
+ReportOps ==
+    {RO("OffsetReport", [ann |-> ByH(x), m |-> m]) : x \in {y \in LiveAnns(st) : HasSingleText(st.anns[y])}, m \in 0..3}
+ByteOps ==
+    UNION {{RO(ev, [c |-> c, p |-> p]) : ev \in {"Utf8Byte", "ByteToChar"}, p \in 0..(4 * ContLen(c) + 2)} : c \in Containers}
+
+Has(x) == x \in Reads
+ReadOps ==
+    (IF Has("lookup") THEN SetToSeq(LookupOps) ELSE <<>>)
+    \o (IF Has("offsets") THEN SetToSeq(OffsetOps) \o SetToSeq(AnnOps) \o SetToSeq(ReportOps) ELSE <<>>)
+    \o (IF Has("anntext") THEN SetToSeq(AnnOps) \o SetToSeq(ReportOps) ELSE <<>>)
+    \o (IF Has("bytes") THEN SetToSeq(ByteOps) ELSE <<>>)
+
+Emit == Len(hist) = Depth + Len(PreludeOps) => PrintT(<<"REPLAY", ToJson(hist \o ReadOps)>>)
 =============================================================================
